@@ -218,7 +218,8 @@ class IMAPConnection:
                     raise AuthenticationError('Authentication canceled.') \
                         from None
                 try:
-                    resp_dec = b64decode(resp_bytes)
+                    resp_dec = b64decode(resp_bytes.rstrip(b'\r\n'),
+                                         validate=True)
                 except binascii.Error as exc:
                     raise AuthenticationError(
                         'Invalid authentication response.') from exc
